@@ -197,6 +197,8 @@ impl Timestamp {
     /// Get local system timestamp
     #[inline]
     pub fn now() -> Result<Timestamp> {
+        #[cfg(feature = "verif-hooks")]
+        use crate::verif_hooks::Local;
         let now = Local::now().naive_local();
         Ok(Timestamp::new(
             Date::try_from_ymd(now.year(), now.month(), now.day())?,
@@ -469,6 +471,8 @@ impl TryFrom<Time> for Timestamp {
 
     #[inline]
     fn try_from(time: Time) -> Result<Self> {
+        #[cfg(feature = "verif-hooks")]
+        use crate::verif_hooks::Local;
         let now = Local::now().naive_local();
         Ok(Timestamp::new(
             Date::try_from_ymd(now.year(), now.month(), now.day())?,
